@@ -58,7 +58,7 @@ theorem c09_fs_failed_call_changes_nothing (v : Model.Fs.Vol) (count : Nat) (hv 
     (Model.Fs.step v s op).1.nodes = s.nodes ∧ (Model.Fs.step v s op).1.rootChain = s.rootChain ∧
       Proofs.FsInv.Inv v count (Model.Fs.step v s op).1 :=
   let g := Proofs.FsInv.step_good hv h op
-  ⟨(g.2 hfail).1, (g.2 hfail).2, g.1⟩
+  ⟨(g.2.1 hfail).1, (g.2.1 hfail).2, g.1⟩
 
 /-- whenever the reference filesystem leaves its state as it is (every refused call: wrong kind, missing,
     exists, not empty, root), so does the model -/
